@@ -44,6 +44,7 @@ type Contract struct {
 	MayPanic  bool
 	NoSafety  bool
 	DynCallsFrame bool
+	Abstracts []*Clause
 	DynCallsPure bool
 	TrustedFrame bool // `assigns` is assumed at call sites; the per-write frame obligations of the body are not generated
 	Trusted   bool // contract is assumed, body not verified (listed in evidence)
@@ -104,7 +105,7 @@ type Axiom struct {
 var clauseKeywords = map[string]bool{
 	"func": true, "ext": true, "spec": true, "abstract": true, "axiom": true, "prop": true,
 	"requires": true, "ensures": true, "assigns": true, "loop": true, "call": true, "pure": true,
-	"may_panic": true, "nosafety": true, "trusted": true, "bounded": true, "fresh": true, "emits": true, "note": true, "sets": true, "ghost": true, "readonly": true, "trusted_frame": true, "guarded": true, "dyncalls_pure": true, "dyncalls_frame": true,
+	"may_panic": true, "nosafety": true, "trusted": true, "bounded": true, "fresh": true, "emits": true, "note": true, "sets": true, "ghost": true, "readonly": true, "trusted_frame": true, "guarded": true, "dyncalls_pure": true, "abstracts": true, "dyncalls_frame": true,
 }
 
 var labelRe = regexp.MustCompile(`^@([A-Za-z0-9_\-./]+)\s+`)
@@ -371,6 +372,14 @@ func (e *Engine) readContractFile(path, pkgKey string) error {
 			case "pure":
 				cur.Pure = true
 				cur.HasAssign = true
+			case "abstracts":
+				// abstracts result as f(args): names the result of an interface method at its call sites (assumed: the
+				// method is a function of its receiver and arguments); not checked on implementations
+				c, err := parseClause("@abstracts result == "+strings.TrimSpace(strings.TrimPrefix(rest, "result as")), where)
+				if err != nil {
+					return err
+				}
+				cur.Abstracts = append(cur.Abstracts, c)
 			case "dyncalls_pure":
 				cur.DynCallsPure = true
 				cur.DynCallsFrame = true
